@@ -154,6 +154,120 @@ fn time_space(ctx: &mut Ctx, rng: &mut ChaCha20Rng) {
     }
 }
 
+/// batch entry points of the time prover and the key conversions: batch_commit / batch_open_multi_points
+/// against the space prover run polynomial by polynomial and against naive references;
+/// `as_committer_key` and `index_by` against their defining sums over the published powers.
+fn batch_and_keys(ctx: &mut Ctx, rng: &mut ChaCha20Rng) {
+    let w: StreamWorld = match stream_world(rng, 256) {
+        Ok(w) => w,
+        Err(_) => return ctx.skipped("baseline", "setup refused"),
+    };
+    let npolys = range(rng, 1, 4);
+    let polys: Vec<Vec<Fr>> = (0..npolys).map(|_| stream_poly(&w, rng).0).collect();
+    let buf = BUFS[below(rng, BUFS.len())];
+    let eta: Fr = match rng.next_u32() % 8 {
+        0 => Fr::one(),
+        1 => Fr::zero(),
+        2 | 3 => (rng.next_u64() as u128 | ((rng.next_u64() as u128) << 64)).into(),
+        _ => Fr::rand(rng),
+    };
+    let npts = range(rng, 1, w.max_pts);
+    let mut pts: Vec<Fr> = Vec::new();
+    while pts.len() < npts {
+        let x = Fr::rand(rng);
+        if !pts.contains(&x) {
+            pts.push(x);
+        }
+    }
+    let lens: Vec<usize> = polys.iter().map(|p| p.len()).collect();
+    let desc = json!({"max_degree": w.max_degree, "lens": lens, "npoints": npts, "msm_buffer": buf,
+        "eta": if eta.is_one() { "one" } else if eta.is_zero() { "zero" } else { "random" }});
+    let (g1, g2) = {
+        let (a, b) = w.ck.verif_powers();
+        (a.to_vec(), b.to_vec())
+    };
+    let res = guard(|| {
+        let sck = CommitterKeyStream::from(&w.ck);
+        let tc = w.ck.batch_commit(&polys);
+        let sc: Vec<_> = polys.iter().map(|p| sck.commit(&Reverse(p.as_slice()))).collect();
+        let refs: Vec<&Vec<Fr>> = polys.iter().collect();
+        let tp = w.ck.batch_open_multi_points(&refs, &pts, &eta);
+        // per-polynomial proofs of the space prover (time prover for polynomials shorter than the point set)
+        let sp: Vec<EvaluationProof<E>> = polys
+            .iter()
+            .map(|p| if p.len() > pts.len() { sck.open_multi_points(&Reverse(p.as_slice()), &pts, buf).1 } else { w.ck.open_multi_points(p, &pts) })
+            .collect();
+        (tc, sc, tp, sp)
+    });
+    let (tc, sc, tp, sp) = match res {
+        Ok(x) => x,
+        Err(p) => return ctx.violated("honest-pipeline-refused", "streaming::batch_open_multi_points", desc, json!({"panic": p})),
+    };
+    let naive_c: Vec<_> = polys.iter().map(|p| crate::oracle::naive_msm(&g1, p).into_affine()).collect();
+    let commits_ok = tc.len() == npolys && (0..npolys).all(|i| tc[i] == sc[i] && tc[i].verif_point() == naive_c[i]);
+    ctx.check(commits_ok, "batch-commit-time-equals-space", "streaming::batch_commit", desc.clone(), || json!({"n": tc.len()}));
+    // sum_i eta^i p_i, its quotient by the vanishing polynomial, and the same combination of the single proofs
+    let maxlen = lens.iter().copied().max().unwrap_or(0);
+    let mut comb = vec![Fr::zero(); maxlen];
+    let mut e = Fr::one();
+    let mut acc = <E as ark_ec::pairing::Pairing>::G1::zero();
+    for (p, pf) in polys.iter().zip(&sp) {
+        for (j, c) in p.iter().enumerate() {
+            comb[j] += e * c;
+        }
+        acc += pf.0 * e;
+        e *= eta;
+    }
+    let (q, _r) = divide(&comb, &pts);
+    let want = EvaluationProof::<E>(crate::oracle::naive_msm(&g1, &q).into_affine());
+    let comb_sp = EvaluationProof::<E>(acc.into_affine());
+    ctx.check(tp == want && tp == comb_sp, "batch-open-equals-combination", "streaming::batch_open_multi_points", desc.clone(), || json!({"equals_naive_quotient": tp == want, "equals_combined_space_proofs": tp == comb_sp}));
+    let evals: Vec<Vec<Fr>> = polys.iter().map(|p| pts.iter().map(|x| eval_le(p, x)).collect()).collect();
+    let ok = guard(|| w.vk.verify_multi_points(&sc, &pts, &evals, &comb_sp, &eta).is_ok());
+    // a false value at a position whose weight eta^i is non-zero
+    let i_bad = if eta.is_zero() { 0 } else { below(rng, npolys) };
+    let mut e2 = evals.clone();
+    e2[i_bad][below(rng, npts)] += Fr::one();
+    let bad = guard(|| w.vk.verify_multi_points(&sc, &pts, &e2, &comb_sp, &eta).is_ok());
+    ctx.check(ok == Ok(true) && bad != Ok(true), "space-proof-verifies", "streaming::verify_multi_points[batch]", desc.clone(), || json!({"true_values": format!("{:?}", ok), "false_value": format!("{:?}", bad), "position": i_bad}));
+    // key conversions
+    let d = range(rng, 1, g1.len());
+    let kd = guard(|| {
+        let sck = CommitterKeyStream::from(&w.ck);
+        let k = sck.as_committer_key(d);
+        let (a, b) = k.verif_powers();
+        (a.to_vec(), b.to_vec())
+    });
+    let mut kdesc = desc.clone();
+    kdesc["as_committer_key"] = json!(d);
+    match kd {
+        Err(p) => ctx.violated("key-conversion", "streaming::as_committer_key", kdesc, json!({"panic": p})),
+        Ok((a, b)) => ctx.check(a[..] == g1[..d] && b == g2, "key-conversion", "streaming::as_committer_key", kdesc, || json!({"g1_len": a.len(), "g2_len": b.len()})),
+    }
+    let n = g1.len();
+    let m = range(rng, 0, n);
+    let span = if rng.next_u32() % 2 == 0 { n } else { 1 + below(rng, n.min(4)) };
+    let indices: Vec<usize> = (0..m).map(|_| below(rng, span)).collect();
+    let ik = guard(|| {
+        let k = w.ck.index_by(&indices);
+        let (a, b) = k.verif_powers();
+        (a.to_vec(), b.to_vec())
+    });
+    let mut idesc = desc;
+    idesc["index_by"] = json!({"indices": m, "span": span});
+    match ik {
+        Err(p) => ctx.violated("key-conversion", "streaming::index_by", idesc, json!({"panic": p})),
+        Ok((a, b)) => {
+            let mut wantv = vec![<E as ark_ec::pairing::Pairing>::G1::zero(); n];
+            for (j, &i) in indices.iter().enumerate() {
+                wantv[i] += g1[j];
+            }
+            let good = a.len() == n && (0..n).all(|i| a[i] == wantv[i].into_affine()) && b == g2;
+            ctx.check(good, "key-conversion", "streaming::index_by", idesc, || json!({"g1_len": a.len()}));
+        }
+    }
+}
+
 fn folding_iterators(ctx: &mut Ctx, idx: u64, rng: &mut ChaCha20Rng) {
     // lengths 1..130 and 0..7 challenges are covered systematically by the case index
     let len = 1 + (idx % 130) as usize;
@@ -311,6 +425,7 @@ fn folding_commit_open(ctx: &mut Ctx, rng: &mut ChaCha20Rng) {
 pub fn run(ctx: &mut Ctx) {
     let n = ctx.n(200, 4000);
     ctx.run_cases("time-vs-space", n, |ctx, _i, rng| time_space(ctx, rng));
+    ctx.run_cases("batch-and-keys", n, |ctx, _i, rng| batch_and_keys(ctx, rng));
     // 130 lengths x 8 challenge counts = 1040 systematic cells; the thorough tier repeats them with fresh values
     let cells = if ctx.is_thorough() { 1040 * 6 } else { 1040 };
     ctx.run_cases("folding-iterators", cells, |ctx, i, rng| folding_iterators(ctx, i, rng));
@@ -319,6 +434,7 @@ pub fn run(ctx: &mut Ctx) {
     crate::schemes::set_large(true);
     let nl = if ctx.is_thorough() { 10 } else { 4 };
     ctx.run_cases("time-vs-space/large", nl, |ctx, _i, rng| time_space(ctx, rng));
+    ctx.run_cases("batch-and-keys/large", nl, |ctx, _i, rng| batch_and_keys(ctx, rng));
     ctx.run_cases("folding-commit-open/large", nl, |ctx, _i, rng| folding_commit_open(ctx, rng));
     crate::schemes::set_large(false);
 }
